@@ -95,3 +95,35 @@ chk(
     "runtime monitoring: before/after execution on a symbolic buffer-contents machine with poisoned allocations; consumer logs and final external contents compared",
     "DESIGN.md section 3 C12",
 )
+chk(
+    "C18",
+    "translation_validation",
+    "Generated linalg.generic bodies over addi/muli/subi/extsi (exhaustive boxes of small wirings, canonical kernel bodies, near misses, random) are pushed through the real convert-linalg-to-kernel and executed before and after by a fixed-width scalar evaluator on corner-product plus 200 random vectors; kernel-bodied generics (mul/add/mac/qmac, kernel.rescale parameter sets) go through the real convert-kernel-to-linalg and the expanded body is compared with the kernel's documented meaning; after the real insert-accfg-op/dispatch-kernels every library_call set by the pass is checked against the supported_kernels of the named accelerator (kernel type and exact operand/result types). Holds on the executions observed apart from attributed known findings; sampled, exhaustive only for the stated boxes.",
+    TB + "scalar evaluator vf/interp/scalar.py (kernel ops by documented meaning; kernel.rescale per util/gemmx/simd_golden_model.py because the linked gist is unreachable; 32-bit-overflow inputs out of domain). Expansion judged only for type combinations with a well-typed canonical body; verifier failures after a pass are rejections; convert-tosa-to-kernel not reached under xDSL 0.70. Known findings attributed by structural predicate + counterfactual (vf/counterfactual/kernel_cf.py).",
+    "runtime monitoring: before/after execution of real pass output on a scalar machine (differential evaluation on extreme and random inputs), declaration check on dispatch results",
+    "DESIGN.md section 3 C18",
+)
+chk(
+    "C20",
+    "exploration",
+    "Histories of 1-5 kernel bodies over integer/float binary ops are merged with the real convert_generic_body_to_phs/append_to_abstract_graph (all merge orders for n<=3, sampled beyond); after every merge every kernel seen so far is decoded with the real decode_abstract_graph and a PE interpreter evaluates the abstract graph under the decoded switches on corner plus 200 random inputs against the kernel body; also get_true_switches() == len(decoded) == number of phs_switch_i fields of SNAXPHSAccelerator. An earlier kernel becoming undecodable or changing function after a later merge is a violation. Sampled histories and inputs.",
+    TB + "PE interpreter vf/interp/pe_m.py (choose = region selected by its switch, single-region choose has no hardware switch, mux 0=lhs/1=rhs, decoded values mapped in switch order, demand-driven combinational evaluation); op semantics shared with vf/interp/scalar.py. Kernels whose used-argument types differ from the PE ports, and attribute-carrying ops (cmpi), are counted separately and not judged.",
+    "runtime monitoring: history checking of real encode/merge/decode functions with an abstract PE machine executing the decoded configuration",
+    "DESIGN.md section 3 C20",
+)
+chk(
+    "C03",
+    "exploration",
+    "Contracts on the real SchedulePattern/Schedule.rotate/.tile_dim/.add_dim, PatternCollection.clear_unused_dims/.canonicalize, AccessPattern.canonicalize, scheduler_backtrack (every yielded alternative, cap 48 per case) and scheduler(schedule_idx=k): the multiset over the bounds box of the tuple of per-operand index tuples is recomputed by the harness before and after and must be equal; tile_dim is judged only when the tile divides the bound and every tile_dim issued by scheduler_backtrack must satisfy that divisibility; pass level: dart.operation -> real dart-scheduler -> dart.schedule with the image recomputed from the IR on both sides. Sampled over G-sched (planted and random schedules, real alu/gemmx/xdma templates, tile-chain templates, bounded/unbounded dims, offsets, all extra-check combinations), boxes <= 20000 points; the repo's tests/ir/dart ran once with the contracts on (0 fired).",
+    TB + "numpy integer arithmetic; xDSL AffineMap.eval (pass level). Searches that raise, yield nothing or hit the per-case watchdog are rejections/inconclusive-for-that-case (counted). Inside a search at most 24000 box points are spent on rotate/tile_dim contracts (rest counted as skipped); rotate(0), custom-bounds clear_unused_dims and non-dividing tiles are out of domain (counted).",
+    "runtime monitoring: pre/post-condition contracts installed on the real functions (rebinding in every module namespace, evaluation counters, zero evaluations = inconclusive)",
+    "DESIGN.md section 3 C03",
+)
+chk(
+    "C16",
+    "exploration",
+    "On every schedule yielded by the real scheduler_backtrack (also when reached through scheduler() inside the real dart-scheduler pass with the real get_template()): per operand the row space of the innermost template dims equals the row space of the broadcast-trimmed template matrix (exact Fraction elimination, vf/ref/rowspace.py); bounds[-T:] <= template bounds where not None; each requested constraint re-evaluated independently on the final schedule (pure output stationarity semantically by walking the temporal nest when the output map is injective on its parallel dims, else the documented syntactic rule; memory flexibility and output-channel stationarity by restating the documented predicate). Differential monitor: TemplatePattern.matches and same_nonzero_singular_vectors equal exact row-space equality in both directions on every call made by the searches and on generated pattern pairs (row-mixed, perturbed, rank-deficient, near-parallel up to 64, broadcast, extra/zero rows).",
+    TB + "fractions.Fraction; broadcast rule as documented in matches(); SVD matcher judged only for |entries| <= 64 and default tolerance; yielded schedules with fewer dims than the template are compared with the innermost dims they have and counted (fit_short_schedule), matches() on them is out of the differential's domain. Searches that raise/yield nothing/time out are rejections (counted).",
+    "runtime monitoring: post-condition contracts on every yielded schedule plus a differential monitor of the SVD matcher against exact rational row-space equality",
+    "DESIGN.md section 3 C16",
+)
